@@ -80,3 +80,74 @@ def replay(op, obligation, I):
     from native.common import run_replay
     bat = [dict(shape=s, mode=m, pair=pr, seed=sd) for s in range(2) for m in range(2) for pr in range(2) for sd in range(2)]
     run_replay(obligation, I, check(op), bat)
+
+
+def check_mbsq(I):
+    """BosonicModes.mb_squeeze_avg on a squeezed single-mode input: the result must be a physical state (uncertainty
+    relation, hbar = 2: V + i Omega >= 0) and equal R(phi/2) [X R(-phi/2) V R(-phi/2)^T X^T + Y] R(phi/2)^T with the documented X, Y"""
+    from strawberryfields.backends.bosonicbackend.bosoniccircuit import BosonicModes
+    r, phi, r_anc = float(I.get("r", 0.6)), float(I.get("phi", 0.0)), float(I.get("r_anc", 1.2))
+    eta = min(max(float(I.get("eta_anc", 0.6)), 1e-3), 1.0)
+    if abs(r) > 3 or abs(r_anc) > 3:
+        r, r_anc = float(np.clip(r, -3, 3)), float(np.clip(r_anc, -3, 3))
+    bm = BosonicModes(1, 1)
+    bm.squeeze(0.3, 0.4, 0)
+    V0 = np.array(bm.covs[0]).real
+    bm.mb_squeeze_avg(0, r, phi, r_anc, eta)
+    V = np.array(bm.covs[0]).real
+    ph = phi + (np.pi if r < 0 else 0.0)
+    ra = abs(r)
+    R = lambda a: np.array([[np.cos(a), -np.sin(a)], [np.sin(a), np.cos(a)]])
+    X = np.diag([np.exp(-ra), np.exp(ra)])
+    Y = np.diag([(1 - np.exp(-2 * ra)) * np.exp(-2 * r_anc), (np.exp(2 * ra) - 1) * (1 - eta) / eta])
+    W = R(ph / 2) @ (X @ R(-ph / 2) @ V0 @ R(-ph / 2).T @ X.T + Y) @ R(ph / 2).T
+    what = f"BosonicModes.mb_squeeze_avg(0, r={r:.3g}, phi={phi:.3g}, r_anc={r_anc:.3g}, eta_anc={eta:.3g}) on a squeezed state"
+    Om = np.array([[0, 1], [-1, 0]])
+    if np.linalg.eigvalsh(V + 1j * Om).min() < -1e-9:
+        return f"{what}: the result violates the uncertainty relation (min eigenvalue of V + i Omega = {np.linalg.eigvalsh(V + 1j * Om).min():.4f}, det V = {np.linalg.det(V):.4f})"
+    if not np.allclose(V, W, atol=1e-8):
+        return f"{what}: covariance {np.round(V, 4).tolist()} differs from the documented average map {np.round(W, 4).tolist()}"
+    return None
+
+
+def replay_mbsq(obligation, I):
+    from native.common import run_replay
+    bat = [dict(r=r, phi=p, r_anc=ra, eta_anc=e) for r in (0.6, -0.4, 0.0) for p in (0.0, 0.7) for ra in (1.2, 0.2) for e in (1.0, 0.6, 0.3)]
+    run_replay(obligation, I, check_mbsq, bat)
+
+
+def check_dyne(I):
+    """BosonicModes.post_select_generaldyne on a random 2-mode, 2-component state with COMPLEX means against the component-wise
+    Gaussian conditioning with the bilinear quadratic form (same clauses as the contract)"""
+    from strawberryfields.backends.bosonicbackend.bosoniccircuit import BosonicModes
+    meas = int(I.get("measured", 0))
+    rng = np.random.RandomState(int(I.get("seed", 0)))
+    n, K = 2, 2
+    bm = BosonicModes(n, 1)
+    bm.weights = rng.randn(K) + 1j * rng.randn(K)
+    bm.means = 0.5 * (rng.randn(K, 2 * n) + 1j * rng.randn(K, 2 * n))
+    A = rng.randn(K, 2 * n, 2 * n)
+    bm.covs = A @ A.transpose(0, 2, 1) + np.eye(2 * n)
+    w0, m0, c0 = bm.weights.copy(), bm.means.copy(), bm.covs.copy()
+    S = rng.randn(2, 2); sig = S @ S.T + 0.5 * np.eye(2)
+    v = rng.randn(2)
+    bm.post_select_generaldyne(sig, [meas], v)
+    mq, rq = [2 * meas, 2 * meas + 1], [2 * (1 - meas), 2 * (1 - meas) + 1]
+    t = []
+    for c in range(K):
+        Ci = np.linalg.inv(c0[c][np.ix_(mq, mq)] + sig)
+        dv = v - m0[c][mq]
+        Bc = c0[c][np.ix_(rq, mq)]
+        t.append(w0[c] * np.exp(-0.5 * dv @ Ci @ dv) / np.sqrt(np.linalg.det(2 * np.pi * (c0[c][np.ix_(mq, mq)] + sig))))
+        if not np.allclose(bm.means[c][rq], m0[c][rq] + Bc @ Ci @ dv, atol=1e-9) or not np.allclose(bm.covs[c][np.ix_(rq, rq)], c0[c][np.ix_(rq, rq)] - Bc @ Ci @ Bc.T, atol=1e-9):
+            return f"post_select_generaldyne(mode {meas}): conditional mean / covariance of component {c} differ from the Schur-complement update"
+    t = np.array(t) / sum(t)
+    if not np.allclose(bm.weights, t, atol=1e-9):
+        return (f"post_select_generaldyne(mode {meas}) on components with complex means: new weights {np.round(bm.weights, 4).tolist()} differ from "
+                f"w exp(-1/2 (v-m)^T (C+sigma)^-1 (v-m)) / sqrt(det 2 pi (C+sigma)), normalised: {np.round(t, 4).tolist()}")
+    return None
+
+
+def replay_dyne(obligation, I):
+    from native.common import run_replay
+    run_replay(obligation, I, check_dyne, [dict(measured=m, seed=sd) for m in (0, 1) for sd in range(4)])
